@@ -249,6 +249,26 @@ impl<'a> From<&'a edwards::EdwardsPoint> for NafLookupTable8<CachedPoint> {
     }
 }
 
+// Verification hooks (cfg curve25519_dalek_verif only): raw access to the wrapped vectors.
+#[cfg(curve25519_dalek_verif)]
+impl ExtendedPoint {
+    pub(crate) fn verif_from_raw(x: F51x4Unreduced) -> ExtendedPoint {
+        ExtendedPoint(x)
+    }
+    pub(crate) fn verif_raw(&self) -> F51x4Unreduced {
+        self.0
+    }
+}
+#[cfg(curve25519_dalek_verif)]
+impl CachedPoint {
+    pub(crate) fn verif_from_raw(x: F51x4Reduced) -> CachedPoint {
+        CachedPoint(x)
+    }
+    pub(crate) fn verif_raw(&self) -> F51x4Reduced {
+        self.0
+    }
+}
+
 #[cfg(all(target_feature = "avx512ifma", target_feature = "avx512vl"))]
 #[cfg(test)]
 mod test {
